@@ -120,6 +120,9 @@ def specStepCore (ttl : Nat) (s : SpecSt) (r : Bool) : Ev → SpecSt
   -- a lookup changes nothing, however its two storage round trips interleave with other events
   | .lookBegin _ _ => s
   | .lookEnd _ _ => s
+  -- neither does a consumer of the lookup, whatever it concludes
+  | .reqBegin _ _ _ => s
+  | .reqEnd _ _ _ => s
   | .tick dt => { s with now := s.now + dt }
 
 def setLoose (f : Nat → Bool) (x : Nat) (b : Bool) : Nat → Bool := fun y => if y = x then b else f y
